@@ -74,6 +74,7 @@ PROFILES = {
     "faultysync": dict(BASE, ctx_types=("async",), p_ctx=0.6, faulty=("-", "pause", "resume"), p_sync=0.25, p_catch=0.3),
     "overflow": dict(BASE, ntasks=(3, 8), nleaf=(1, 3), p_task=0.6, p_item=0.25, p_sync=0.15, maxstack=(2, 5), ncalls=2,
                      p_catch=0.3),
+    "throw": dict(BASE, nkinds=(1, 3), bases=(0, 1), flush_modes=("ok", "throw", "raise"), p_sync=0.2, p_catch=0.4, ncalls=2),
     "everything": dict(BASE, ntasks=(2, 8), nkinds=(1, 3), bases=(0, 1), p_share=0.1, p_reyield=0.05,
                        flush_modes=("ok", "ok", "itemerr", "skip", "raise"), p_raise=0.08, p_errleaf=0.04, p_bad=0.03,
                        p_catch=0.35, p_sync=0.15, ctx_types=("async", "override"), p_ctx=0.35, nvars=1, p_read=0.3),
